@@ -436,7 +436,7 @@ func countOps(t *xt) int {
 }
 
 func suiteC07(cfg Config, res *Result) {
-	res.Rule = "expression trees over the leaves {0,1,2,7,-3,2.5,\"a\",\"\",true,false,x:int,y:float,s:string} and 15 binary + 2 unary operators: all trees of depth <= 2 (exhaustive) plus random trees up to depth 5 (quick) / 8 (thorough); each tree inside the uncontroversial fragment (decided by the independent evaluator) is printed with minimal parentheses, random spacing and operator spellings, rendered through {{ e }} and {% if e %}, and compared with the independent evaluator and with the Lean model; non-trivial = >= 2 operators; distinct by printed source"
+	res.Rule = "expression trees over the leaves {0,1,2,7,-3,2.5,\"a\",\"\",true,false,x:int,y:float,s:string} and 15 binary + 2 unary operators: all trees of depth <= 2 (exhaustive), every ordered pair of binary operators in both groupings over numeric leaf triples, plus random trees up to depth 5 (quick) / 8 (thorough); each tree inside the uncontroversial fragment (decided by the independent evaluator) is printed with minimal parentheses, random spacing and operator spellings, rendered through {{ e }} and {% if e %}, and compared with the independent evaluator and with the Lean model; non-trivial = >= 2 operators; distinct by printed source"
 	rng := NewRNG(cfg.Seed)
 	var trees []*xt
 	// exhaustive depth <= 2
@@ -457,6 +457,26 @@ func suiteC07(cfg Config, res *Result) {
 	}
 	trees = append(trees, d1...)
 	trees = append(trees, d2...)
+	// every ordered pair of binary operators in both groupings over a few numeric leaf triples:
+	// precedence and associativity of each pair are exercised on every run
+	var nums []*xt
+	for i := range c07Leaves {
+		if l := c07Leaves[i]; l.name == "" && ((l.leaf.k == "int" && (l.leaf.i == 1 || l.leaf.i == 2 || l.leaf.i == 7)) || l.leaf.k == "float") {
+			nums = append(nums, &c07Leaves[i])
+		}
+	}
+	if len(nums) >= 3 {
+		// nums = [1, 2, 7, 2.5]; (2, 7, 2) separates the two groupings of every operator incl. ^ (2^49 vs 16384)
+		triples := [][3]*xt{{nums[0], nums[1], nums[2]}, {nums[1], nums[2], nums[1]}, {nums[2], nums[1], nums[0]}, {nums[len(nums)-1], nums[0], nums[1]}, {nums[2], nums[2], nums[1]}}
+		for _, o1 := range c07Ops {
+			for _, o2 := range c07Ops {
+				for _, t := range triples {
+					trees = append(trees, &xt{op: o2, l: &xt{op: o1, l: t[0], r: t[1]}, r: t[2]})
+					trees = append(trees, &xt{op: o1, l: t[0], r: &xt{op: o2, l: t[1], r: t[2]}})
+				}
+			}
+		}
+	}
 	// depth 3 sample: op over (depth-2, depth-2)
 	n3 := 20000
 	nr := 10000
